@@ -20,7 +20,7 @@ Dims == OrderedSubsetsUpTo(BaseLetters, MaxDims)
 ShapesFor(ds) ==
     {Shape(p) : p \in Perms(ds)}
     \cup (IF Len(ds) >= 1 THEN {Shape(Tail(ds)), Shape(SubSeq(ds, 1, Len(ds) - 1)), <<1>> \o Shape(Tail(ds))} ELSE {})
-    \cup {Shape(ds) \o <<1>>, <<1>> \o Shape(ds), Shape(ds) \o <<2>>, <<>>, <<-1>>}
+    \cup {Shape(ds) \o <<1>>, <<1>> \o Shape(ds), Shape(ds) \o <<2>>, <<>>, <<-1>>, <<-2>>}
 
 ArrayConfigs == UNION {{[op |-> "array_ctor", cls |-> c, via |-> v, ds |-> ds, shape |-> sh, tl |-> "", b |-> <<>>] :
                           sh \in ShapesFor(ds), c \in {"FlodymArray", "Parameter", "StockArray"},
@@ -44,7 +44,12 @@ ForeignConfigs ==
     UNION {{[op |-> "assign_foreign", cls |-> "FlodymArray", via |-> v, ds |-> ds, shape |-> <<>>, tl |-> l, b |-> <<>>] :
                v \in {"ellipsis", "empty_dict", "arith"}, l \in Range(ds)} : ds \in {d \in Dims : d # <<>>}}
 
-Configs == ArrayConfigs \cup StockConfigs \cup LifetimeConfigs \cup ForeignConfigs
+ForeignPrmConfigs ==
+    UNION {UNION {{[op |-> "lifetime_foreign", cls |-> "FixedLifetime", via |-> v, ds |-> ds, shape |-> <<>>, tl |-> l, b |-> pd] :
+               v \in {"ctor", "set_prms"}, l \in Range(pd)} : pd \in {q \in OrderedSubsetsUpTo(Range(ds), 2) : q # <<>>} \cup Perms(ds)}
+           : ds \in {d \in StockDims : d[1] = "t"}}
+
+Configs == ArrayConfigs \cup StockConfigs \cup LifetimeConfigs \cup ForeignConfigs \cup ForeignPrmConfigs
 
 Accept(c) ==
     CASE c.op = "array_ctor"   -> ArrayCtorOK(c.via, c.ds, c.shape)
@@ -52,6 +57,7 @@ Accept(c) ==
       [] c.op = "dsm_lifetime" -> DsmLifetimeOK(c.ds, c.tl, c.b)
       [] c.op = "lifetime_prm" -> LifetimePrmOK(c.ds, c.b)
       [] c.op = "assign_foreign" -> ForeignAssignOK(c.ds, c.tl)
+      [] c.op = "lifetime_foreign" -> ForeignPrmOK(c.ds, c.b, c.tl)
 
 Init == cfg \in Configs /\ res = "pending" /\ phase = "cfg"
 Step == phase = "cfg" /\ phase' = "done" /\ res' = (IF Accept(cfg) THEN "ok" ELSE "error") /\ UNCHANGED cfg
@@ -62,7 +68,7 @@ EmitInv == (Emit /\ phase = "done") => PrintT(<<"VEC", ToJson([cfg |-> cfg, res 
 \* C13 on the contract: whatever is accepted has exactly the shape of its dims / the dims of its owner
 Prop_C13 ==
     phase = "done" =>
-      /\ (cfg.op = "array_ctor" /\ res = "ok") => (cfg.shape = Shape(cfg.ds) \/ cfg.shape = <<-1>>)
+      /\ (cfg.op = "array_ctor" /\ res = "ok") => (cfg.shape = Shape(cfg.ds) \/ cfg.shape = <<-1>> \/ cfg.shape = <<-2>>)
       /\ (cfg.op = "stock_ctor" /\ res = "ok") => (cfg.ds[1] = cfg.tl /\ (cfg.via # "none" => cfg.b = cfg.ds))
       /\ (cfg.op = "dsm_lifetime" /\ res = "ok") => cfg.b = cfg.ds
 =============================================================================
